@@ -386,6 +386,13 @@ def classify_access(f, mid):
 CASTS_UP = ('CStyleCastExpr', 'CXXStaticCastExpr', 'CXXFunctionalCastExpr', 'CXXReinterpretCastExpr', 'CXXConstCastExpr')
 
 
+def global_accesses(f, names):
+    """yield (stmt, qualified name, 'r'|'w') for references to namespace-scope variables"""
+    for st in f.stmts:
+        if st and st['k'] == 'DeclRefExpr' and st.get('gl') and st.get('q') in names:
+            yield st, st['q'], classify_access(f, st['i'])
+
+
 def field_accesses(f, fields=None):
     """yield (stmt, qualified field, 'r'|'w') for outermost field MemberExprs in f.
     For nested member chains (d_->x.y) the access is attributed to every field on the
@@ -417,7 +424,8 @@ def collect_accesses(prog, eng, contexts, fields):
     for f, entry, role in contexts:
         res = eng.analyze(f, entry)
         cfg = f.cfg
-        for st, q, rw in field_accesses(f, fields):
+        import itertools
+        for st, q, rw in itertools.chain(field_accesses(f, fields), global_accesses(f, fields)):
             pt = cfg.point_of(st['i'])
             if pt is None or pt not in res:
                 continue  # not reachable / not in CFG (e.g. unevaluated)
